@@ -113,7 +113,7 @@ CLAIMED = {
             "Decides provenance and units, not the numeric values of positions. Later stages (schema/executable) clone the located nodes; that they do is not re-derived.",
             "access-path provenance over rustc MIR (symbolic operands), who-calls on location-less constructors, backward may-derive slice for units and line separators", False),
     "C17": ("other",
-            "Handler registry: each of the 34 operation-validation rules of spec section 5 (as split into diagnostic kinds) has a diagnostic of the matching kind constructed in a function reachable from the executable validation entries and, for construct-specific rules, through the validator of that construct (values, directives, field arguments). The missing handler for 5.6.3 Input Object Field Uniqueness was found by this rule and repaired. Plus the per-operation scope of the validated-fragments memo (the per-operation variable rules 5.8.3/5.8.5 are otherwise applied with another operation's variables); SameResponseShape's wrapper table over the 16 kind pairs of the two field types (same-nullability lists unwrap together, any other list / nullability difference conflicts). In value_of_correct_type every accepting path of a List / Object literal visits the nested values, so All Variable Uses Defined holds at any depth (C17.NESTED; the custom-scalar object arm did not - found and repaired).",
+            "Handler registry: each of the 34 operation-validation rules of spec section 5 (as split into diagnostic kinds) has a diagnostic of the matching kind constructed in a function reachable from the executable validation entries and, for construct-specific rules, through the validator of that construct (values, directives, field arguments). The missing handler for 5.6.3 Input Object Field Uniqueness was found by this rule and repaired. Plus the per-operation scope of the validated-fragments memo (the per-operation variable rules 5.8.3/5.8.5 are otherwise applied with another operation's variables); SameResponseShape's wrapper table over the 16 kind pairs of the two field types (same-nullability lists unwrap together, any other list / nullability difference conflicts). In value_of_correct_type every accepting path of a List / Object literal visits the nested values, so All Variable Uses Defined holds at any depth (C17.NESTED; the custom-scalar object arm did not - found and repaired). The Variable arm must decide nested positions by type compatibility (C17.VARPOS): it compares innermost named types only - a genuine defect recorded as a known finding.",
             "Presence of a handler per rule is a necessary condition only; that each handler's condition equals the spec's, i.e. verdict agreement with graphql-js, is not decided (not decidable by this family).",
             "call-graph reachability from entry points to diagnostic construction sites (aggregates in MIR) against a rule->variant registry; who-writes / provenance for the memo scope", False),
     "C32": ("other",
